@@ -230,6 +230,13 @@ def scenarios(rng: random.Random, tier: str):
         pred = dial + " | start ok,ok,ok | " + " | ".join(
             f"rx {k} " + nodegen.cea(2001, spell(f"peer{k + 1}.x"), 2001 + 1000 * k, 268435464 + k, auth="4") for k in range(3))
         out.append(pred + " | " + " | ".join(req(k, f"peer{k + 1}.x", "realm.local") for k in range(3)))
+    # "unknown" peers of the quantifier: a ready connection that resolves to none of the configured peers gets the first
+    # application with the request's id (no history of the node produces such a connection; the scenario makes one)
+    for conn in (0, 1, 2):
+        out.append(pre + f" | anon {conn} | " + " | ".join(req(conn, "ghost.x", r, a) for r in ("realm.local", "other.realm", "foreign.realm")
+                                                         for a in (4, 3, 77)))
+        out.append(prex + f" | anon {conn} | " + " | ".join(req(conn, "ghost.x", r, a) for r in ("realm.local", "realm.b", "extra.realm")
+                                                          for a in (4, 3)))
     oracle.meta = meta
     return out
 
